@@ -260,6 +260,8 @@ fixed_exec!(exec_p8, P8E0, P8, u8, i8, p, rp, {
     ("ln", "m") => rp(<P8E0>::ln(p(0))),
     ("exp", "nt") => rp(Float::exp(p(0))),
     ("ln", "nt") => rp(Float::ln(p(0))),
+    ("asinh", "m") => rp(<P8E0>::asinh(p(0))),
+    ("acosh", "m") => rp(<P8E0>::acosh(p(0))),
 });
 
 fixed_exec!(exec_p16, P16E1, P16, u16, i16, p, rp, {
@@ -277,6 +279,8 @@ fixed_exec!(exec_p16, P16E1, P16, u16, i16, p, rp, {
     ("exp2", "nt") => rp(Float::exp2(p(0))),
     ("ln", "nt") => rp(Float::ln(p(0))),
     ("log2", "nt") => rp(Float::log2(p(0))),
+    ("asinh", "m") => rp(<P16E1>::asinh(p(0))),
+    ("acosh", "m") => rp(<P16E1>::acosh(p(0))),
     ("to_degrees", "m") => rp(<P16E1>::to_degrees(p(0))),
     ("to_radians", "m") => rp(<P16E1>::to_radians(p(0))),
 });
